@@ -22,7 +22,7 @@ TRUSTED = ["CPython for the concrete part", "structured-array engine + BigSum ru
            "spec: conv_spec + contraction + bias rule transcribed from the statement"]
 ASSUMPTIONS = ["reals not floats", "signature pairs and option sets enumerated", "image extent >= dilated filter extent"]
 EXPLANATION = "Unbounded in channel counts, numbers of filters, weights, biases, inputs, extents; enumerated in signatures, bias setting, padding / dilation options, D."
-GRID = {"quick": "D=2; signature pairs over {(0,0),(1,0),(0,1)}; options {default, SAME+rdil 2, explicit+lhs dil 2}; five bias settings x 3 signatures",
+GRID = {"quick": "D=2; signature pairs over {(0,0),(1,0),(0,1)}; options {default, SAME+rdil 2, explicit+lhs dil 2, SAME+stride 2 (non-torus)}; five bias settings x 3 signatures",
         "thorough": "D in {2,3}; adds (2,0), (1,1) types and stride 2"}
 
 
@@ -37,7 +37,8 @@ def jobs(tier):
     if not q:
         sigs += [([(1, 1), (0, 0)], [(1, 0), (1, 1)]), ([(2, 0)], [(0, 0), (1, 0)])]
     opts = [dict(stride=1, padding=None, ldil=None, rdil=1, flags=True), dict(stride=1, padding="SAME", ldil=None, rdil=2, flags=[True, False, True]),
-            dict(stride=1, padding="explicit", ldil=2, rdil=1, flags=False)] + ([] if q else [dict(stride=2, padding="VALID", ldil=None, rdil=1, flags=True)])
+            dict(stride=1, padding="explicit", ldil=2, rdil=1, flags=False), dict(stride=2, padding="SAME", ldil=None, rdil=1, flags=False)] + \
+        ([] if q else [dict(stride=2, padding="VALID", ldil=None, rdil=1, flags=True)])
     for D in ([2] if q else [2, 3]):
         for (si, so) in sigs:
             for oi, o in enumerate(opts):
